@@ -46,9 +46,9 @@ type N struct {
 	Vals  []*N
 
 	// expected-side annotations
-	Unordered bool        // KMap: key order is not significant (Go-map / struct backed level)
+	Unordered bool            // KMap: key order is not significant (Go-map / struct backed level)
 	Opt       map[string]bool // KMap: these keys may be absent from the output
-	AnyOf     []*N        // any of these alternatives is acceptable (K ignored)
+	AnyOf     []*N            // any of these alternatives is acceptable (K ignored)
 
 	// input-side presentation hints
 	Style   yaml.Style
@@ -57,15 +57,23 @@ type N struct {
 	Merge   bool // KMap used as the value of a `<<` key: an inline merge source
 }
 
-func Null() *N            { return &N{K: KNull} }
-func Str(s string) *N     { return &N{K: KStr, S: s} }
-func Int(i int64) *N      { return &N{K: KInt, I: i} }
-func Flt(f float64) *N    { return &N{K: KFloat, F: f} }
+func Null() *N         { return &N{K: KNull} }
+func Str(s string) *N  { return &N{K: KStr, S: s} }
+func Int(i int64) *N   { return &N{K: KInt, I: i} }
+func Flt(f float64) *N { return &N{K: KFloat, F: f} }
 
 // IntRaw / FltRaw are numbers with the spelling to use in YAML input (010,
 // 0x1F, 1_000, 1e3 ...); JSON input and the expected side use the value.
 func IntRaw(text string, v int64) *N   { return &N{K: KInt, I: v, S: text} }
 func FltRaw(text string, f float64) *N { return &N{K: KFloat, F: f, S: text} }
+
+// NumStr (expected side) is a string that spells the number f in some decimal notation: any text that
+// strconv.ParseFloat reads back as exactly f is accepted ("2.5e+06", "2500000", "2500000.0").
+func NumStr(f float64) *N { return &N{K: KStr, S: "\x00numstr", F: f} }
+
+// BoolRaw / NullRaw: a boolean / null in the given YAML spelling (True, FALSE, Null, ~, or nothing at all).
+func BoolRaw(text string, b bool) *N { return &N{K: KBool, B: b, S: text} }
+func NullRaw(text string) *N         { return &N{K: KNull, S: text} }
 
 // BigUint is an integer beyond int64 (2^63 .. 2^64-1), written as decimal
 // digits in both input formats; readers and the expected side see it as the
@@ -270,6 +278,9 @@ func (n *N) yamlNode(o YAMLOpts, anchors map[*N]*yaml.Node) *yaml.Node {
 	switch n.K {
 	case KNull:
 		y.Kind, y.Tag, y.Value = yaml.ScalarNode, "!!null", "null"
+		if n.S != "" {
+			y.Value = n.S
+		}
 	case KStr:
 		y.Kind, y.Tag, y.Value = yaml.ScalarNode, "!!str", n.S
 		st := n.Style
@@ -300,6 +311,9 @@ func (n *N) yamlNode(o YAMLOpts, anchors map[*N]*yaml.Node) *yaml.Node {
 		}
 	case KBool:
 		y.Kind, y.Tag, y.Value = yaml.ScalarNode, "!!bool", strconv.FormatBool(n.B)
+		if n.S != "" {
+			y.Value = n.S
+		}
 	case KSeq:
 		y.Kind, y.Tag = yaml.SequenceNode, "!!seq"
 		if o.Flow {
@@ -607,6 +621,12 @@ func match(exp, got *N, path string) string {
 	case KNull:
 		return ""
 	case KStr:
+		if exp.S == "\x00numstr" {
+			if f, err := strconv.ParseFloat(got.S, 64); err != nil || f != exp.F {
+				return fmt.Sprintf("%s: want a string spelling the number %v, got %q", path, exp.F, got.S)
+			}
+			return ""
+		}
 		if exp.S != got.S {
 			return fmt.Sprintf("%s: want %q, got %q", path, exp.S, got.S)
 		}
